@@ -29,6 +29,20 @@ func init() {
 		"vpBytes": func(fr *frame, a []value) value {
 			return fr.i.vpBytes(a[0].(string), a[1].(int))
 		},
+		"vpAssumeSat": func(fr *frame, a []value) value {
+			// an assumption the harness guarantees to be satisfiable on every
+			// feasible path (a predicate of a fresh value): no feasibility query
+			switch c := a[0].(type) {
+			case bool:
+				if !c {
+					panic(pathEnd{"assume-false", ""})
+				}
+			case *Term:
+				fr.i.flushAsserts()
+				fr.i.p.assume(c, false)
+			}
+			return nil
+		},
 		"vpAssume": func(fr *frame, a []value) value {
 			fr.i.vpAssume(a[0])
 			return nil
@@ -367,6 +381,12 @@ func (i *interpreter) hashUF(name string, bytes []value) []value {
 	arg := i.concatBytes(bytes)
 	fname := fmt.Sprintf("H_%s_%d", name, len(bytes))
 	app := st.Apply(fname, BV(256), arg)
+	for _, prev := range i.p.ufApps[fname] {
+		if prev == app {
+			// seen on this path: its axioms are already in the path condition
+			return i.splitBytes(app, 32)
+		}
+	}
 	// injectivity against previous applications (same name and length)
 	for _, prev := range i.p.ufApps[fname] {
 		if prev == app {
